@@ -9,6 +9,7 @@ static const char *bhn[] = { "return", "yields", "loop", "suspend", "exit" };
 
 typedef struct incarnation {
     int behaviour, cancel, cancel_delay, yields;
+    int migrates; /* the unit also keeps requesting its own migration: both requests share one word */
 } incarnation;
 
 typedef struct lu {
@@ -32,7 +33,7 @@ static struct {
     wl_rt rt;
     lu U[MAXU];
     int n;
-    long transitions, cancels_before_run, cancels_at_yield, cancels_late, revives;
+    long transitions, cancels_before_run, cancels_at_yield, cancels_late, revives, self_migrations;
 } S;
 
 static const char *stn(int s)
@@ -99,6 +100,14 @@ static void unit_fn(void *arg)
         case BH_LOOP:
             for (int i = 0; in->behaviour == BH_LOOP || i < in->yields; i++) {
                 u->ticks++;
+                if (in->migrates && (i & 1) == 0) {
+                    ABT_thread self;
+                    ABT_OK(ABT_self_get_thread(&self));
+                    int rc = ABT_thread_migrate_to_pool(self, S.rt.pools[sim_rand_n(SIM_RS_CHAOS, (uint32_t)S.rt.npools)]);
+                    SIM_CHECK(rc == ABT_SUCCESS || rc == ABT_ERR_MIGRATION_TARGET, "migrate:error-code", "ABT_thread_migrate_to_pool returned %d", rc);
+                    if (rc == ABT_SUCCESS)
+                        S.self_migrations++;
+                }
                 uint64_t inv = sim_steps();
                 ABT_OK(ABT_thread_yield());
                 /* a scheduling point invoked after ABT_thread_cancel returned must not return */
@@ -265,6 +274,7 @@ static void run_c12(void)
             if (in->behaviour == BH_LOOP)
                 in->cancel = 1; /* the only way out */
             in->cancel_delay = (int)plan_n(6);
+            in->migrates = plan_n(3) == 0;
             in->yields = (int)plan_n(5);
             sim_note(" %s%s", bhn[in->behaviour], in->cancel ? "+cancel" : "");
         }
@@ -291,6 +301,7 @@ static void run_c12(void)
     sim_count("c12.state_transitions_observed", (uint64_t)S.transitions);
     sim_count("c12.cancel_before_start", (uint64_t)S.cancels_before_run);
     sim_count("c12.revives", (uint64_t)S.revives);
+    sim_count("c12.self_migration_requests", (uint64_t)S.self_migrations);
     sim_set_store_cb(NULL);
     wl_rt_stop(rt);
 }
